@@ -269,7 +269,9 @@ def step(ctx, c, twin, dtypes, hist, kind, n, span, op, optag, opval_factory, ta
             ctx.violation('failed-assignment-mutates', f'{kind}: {desc} raised {outcome} but changed the series', case)
             return False
     # strict clauses
-    if strict_now and op == 'newattr' and target not in before['attrs'] and target not in before['index']:
+    # "existing name" is decided on what is observable (the instance carries it), not on the container's own bookkeeping
+    exists_before = target in before['attrs'] or target in before['keys']
+    if strict_now and op == 'newattr' and not exists_before and target not in before['index']:
         if outcome == 'ok' or after['attrs'] != before['attrs'] or after['keys'] != before['keys']:
             ctx.violation('strict-new-attribute', f'{kind}: with strict=True, setting new attribute {target!r} -> {outcome}; attributes {before["attrs"]} -> {after["attrs"]}', case)
             return False
@@ -281,7 +283,7 @@ def step(ctx, c, twin, dtypes, hist, kind, n, span, op, optag, opval_factory, ta
         if near and not isinstance(getattr(type(c), target, None), property) and not any(f"'{v}'" in msg for v in near):
             ctx.violation('strict-near-miss-not-reported', f'{kind}: refusal message does not suggest the closest variable: {msg!r}', case)
             return False
-    if strict_now and op == 'newattr' and target in before['attrs'] and twin is not None and target in snap(twin)['attrs']:
+    if strict_now and op == 'newattr' and exists_before and twin is not None and (target in snap(twin)['attrs'] or target in snap(twin)['keys']):
         t_out = 'ok'
         try:
             apply(twin, op, optag, opval_factory(), target, n, span, extra)
@@ -292,6 +294,12 @@ def step(ctx, c, twin, dtypes, hist, kind, n, span, op, optag, opval_factory, ta
             ctx.violation('strict-blocks-update', f'{kind}: updating existing attribute {target!r} with strict=True -> {outcome}, non-strict twin -> {t_out}', case)
             return False
         return check_invariant(ctx, c, dtypes, hist, kind)
+    if strict_now and op == 'newattr' and exists_before and twin is None:
+        # no twin (the object was not born strict): updating a name the instance already carries keeps working
+        ctx.count('strict_existing_updates_checked')
+        if outcome != 'ok':
+            ctx.violation('strict-blocks-update', f'{kind}: updating existing attribute {target!r} with strict=True -> {outcome} ({msg})', case)
+            return False
     if twin is not None:
         # the same operation on a never-strict twin: existing-name updates and add_variable must behave identically
         tb = snap(twin)
@@ -340,9 +348,11 @@ def history(ctx, kind, n, strict, plan, rng):
         twin, _, _ = make(kind, n, False)
     ops_cat = operands(n)
     hist = []
-    for op, oi in plan:
+    for op, oi, *forced in plan:
         optag, fac = ops_cat[oi]
         target, extra = choose(rng, c, n, span, op)
+        if forced:
+            target = forced[0]
         if op in ('attr', 'item', 'label', 'lslice', 'replace') and not c.__dict__['index']:
             continue
         if not step(ctx, c, twin, dtypes, hist, kind, n, span, op, optag, fac, target, extra):
@@ -377,6 +387,20 @@ def run_shard(ctx):
                         plan = prefix + [s1, s2]
                         h = history(ctx, kind, n, strict, plan, rng)
                         ctx.evaluation((kind, n, strict, h), nontrivial=bool(h), sample={'kind': kind, 'n': n, 'strict': strict, 'history': h})
+    # a name created one way while strict is off, strict switched on, the name updated / re-declared (every creation route x operand)
+    for kind in ('container', 'model', 'linker'):
+        for create in ('newattr', 'add_attr'):
+            for name in ('note', 'memo', 'a', 'Bb'):
+                for oi in range(0, ncat, 3):
+                    idx += 1
+                    if not ctx.mine(idx):
+                        continue
+                    for born_strict in (False, True):
+                        plan = ([('strict', 0)] if born_strict else []) + [(create, oi, name), ('strict', 0), ('newattr', (oi + 1) % ncat, name), ('add_attr', oi, name),
+                                                                          ('strict', 0), ('newattr', oi, name)]
+                        h = history(ctx, kind, 2, born_strict, plan, rng)
+                        ctx.count('strict_sandwich_histories')
+                        ctx.evaluation((kind, 2, born_strict, h), nontrivial=bool(h))
     # random long histories
     count = ctx.pick(150, 6000)
     for i in range(count):
